@@ -56,14 +56,28 @@ def exec (q : PQ) : List Op → PQ
   | [] => q
   | op :: ops => exec (step q op).1 ops
 
-/-- deterministic replay of the abstract map from the operations and the answers that were given
-(the answers tell which item a `pop` removed): the "scores last assigned" to the queued items. -/
-def replay : AMap → List Op → List Out → AMap
-  | M, .push s item :: ops, .unit :: outs => replay ((item, s) :: M) ops outs
-  | M, .pop :: ops, .popped _ item :: outs => replay (M.filter (fun p => p.1 != item)) ops outs
-  | M, .change item s :: ops, .unit :: outs => replay ((item, s) :: M.filter (fun p => p.1 != item)) ops outs
-  | M, _ :: ops, _ :: outs => replay M ops outs
-  | M, _, _ => M
+/-- deterministic replay of the abstract map from an operation and the answer that was given
+(the answer tells which item a `pop` removed; `misuse`/`empty` answers leave the map unchanged) -/
+def replayStep (M : AMap) : Op → Out → AMap
+  | .push s item, .unit => (item, s) :: M
+  | .pop, .popped _ item => M.filter (fun p => p.1 != item)
+  | .change item s, .unit => (item, s) :: M.filter (fun p => p.1 != item)
+  | _, _ => M
+
+/-- the items queued and the scores last assigned to them after a history with given answers -/
+def replay (M : AMap) : List Op → List Out → AMap
+  | op :: ops, o :: outs => replay (replayStep M op o) ops outs
+  | _, _ => M
+
+/-- what the abstract queue holding exactly `M` (keys distinct) may answer to `op` -/
+def Allowed (M : AMap) : Op → Out → Prop
+  | .push _ item, o => if item ∈ M.keys then o = .misuse else o = .unit
+  | .pop, o => (M = [] ∧ o = .empty) ∨
+      ∃ s item, o = .popped s item ∧ (item, s) ∈ M ∧ ∀ p ∈ M, scoreLower s p.2 = false
+  | .change item _, o => if item ∈ M.keys then o = .unit else o = .misuse
+  | .get item, o => o = .score (M.lookup item)
+  | .len, o => o = .len M.length
+  | .isEmpty, o => o = .isEmpty M.isEmpty
 
 /-! ## union-find -/
 
